@@ -64,6 +64,19 @@ func walkTree(path string) map[string]any {
 	}
 }
 
+// walkTreeSkip is walkTree without one top-level name (the staging directory
+// when it is configured to live inside the root; scans ignore it by its
+// temporary-name prefix).
+func walkTreeSkip(path, skip string) map[string]any {
+	t := walkTree(path)
+	if skip != "" {
+		if c, ok := t["c"].(map[string]any); ok {
+			delete(c, skip)
+		}
+	}
+	return t
+}
+
 // metaList is a flat, sorted listing of a tree with everything an access or a
 // modification could change: kind, size, mode bits, mtime, inode, content hash,
 // link target. Used for the canary directory (compared before/after).
@@ -165,7 +178,7 @@ func walkStore(stagingRoot string, paths []string) []any {
 			if ok {
 				pp = splitPath(p)
 			}
-			out = append(out, map[string]any{"p": pp, "nd": nd, "cd": sha1File(fp)})
+			out = append(out, map[string]any{"p": pp, "nd": nd, "cd": sha1File(fp), "sz": int(fi.Size())})
 		}
 	}
 	return out
